@@ -8,8 +8,8 @@ package main
 
 import (
 	"bytes"
-	"crypto/md5"
 	"context"
+	"crypto/md5"
 	"encoding/base64"
 	"encoding/hex"
 	"encoding/json"
@@ -102,7 +102,7 @@ type Rend struct {
 	Trunc  []int  `json:"trunc"`
 	Snip   []int  `json:"snip"`
 	SnipSz string `json:"snipsz"`
-	Md5Of  []int  `json:"md5of"` // 16 bytes reported
+	Md5Of  []int  `json:"md5of"`  // 16 bytes reported
 	Md5Ref []int  `json:"md5ref"` // md5 (Go) of the bytes of the `string` rendering
 	Bad    string `json:"bad"`    // a rendering that could not be parsed back at all
 }
@@ -308,7 +308,11 @@ func observe(items []*item) {
 			if ob.Bytes.V == nil {
 				ob.Bytes.V = []int{}
 			}
-			fix(&ob.Par); fix(&ob.Via); fix(&ob.Root); fix(&ob.Br); fix(&ob.Fr)
+			fix(&ob.Par)
+			fix(&ob.Via)
+			fix(&ob.Root)
+			fix(&ob.Br)
+			fix(&ob.Fr)
 			it.ev.Obs = append(it.ev.Obs, ob)
 		}
 		if len(by[it.name]) == 0 {
@@ -503,6 +507,26 @@ func main() {
 			items = append(items, it)
 		})
 		runBatches(items, out)
+		out.Close()
+	case "bigarr":
+		// bigarr <events>: arrays of 300 / 40 000 / 70 000 elements (a cbor array of small integers): the last path component of every
+		// element is its position, also far beyond 2^15 and 2^16, and the way back through parent leads to the same element
+		out := kit.NewOut(os.Args[2])
+		for _, n := range []int{300, 40000, 70000} {
+			head := fmt.Sprintf("153, %d, %d", n>>8, n&255)
+			if n > 65535 {
+				head = fmt.Sprintf("154, 0, %d, %d, %d", n>>16, (n>>8)&255, n&255)
+			}
+			prog := fmt.Sprintf(`[%s, (range(%d) | . %% 24)] | tobytes | cbor | .elements as $e
+| [($e | length), ([range(0; %d) as $i | $e[$i] | (topath | last) | select(. != $i)] | length), ($e[%d] | topath | last), ($e[%d] | parent | .[%d] | topath | last)]`, head, n, n, n-1, n-1, n-1)
+			res := kit.RunFQ([]string{"-n", "-c", prog}, nil, nil)
+			ev := event{Kind: "bigarr", What: fmt.Sprintf("cbor array of %d elements: topath | last of every element", n), Len: int64(n), Want: []int{}, Got: []int{},
+				Prog: []treelib.Tok{}, Nodes: []treelib.Node{}, Bufs: map[string][]int{}, Obs: []Obs{}, RawOut: []int{}}
+			if err := json.Unmarshal(bytes.TrimSpace(res.Stdout), &ev.Got); err != nil {
+				ev.JqErr = "bigarr: " + strings.TrimSpace(string(res.Stderr)) + " " + err.Error()
+			}
+			out.Emit(ev)
+		}
 		out.Close()
 	case "slice":
 		// slice <n> <events>: the root of a decode of a SLICED binary must give back exactly the slice (C05: "the root value yields the whole input")
